@@ -2750,6 +2750,8 @@ class netcdf(PseudoNetCDFFile, NetCDFFile):
             return False
 
     def close(self):
+        if not self.isopen():
+            return
         try:
             return NetCDFFile.close(self)
         except Exception as e:
